@@ -39,9 +39,9 @@ func boolEq(a, b bool) bool { return nd.Or(nd.And(a, b), nd.And(nd.Not(a), nd.No
 func H_C02_enqueue() {
 	id := "C02.enqueue"
 	ps := shapeActor("shape")
-	pk := nd.Choice("pending", 5)
-	if pk == 4 {
-		pk = 5 // bucket with an entry of another validator only
+	pk := nd.Choice("pending", 6)
+	if pk >= 4 {
+		pk++ // 5: bucket with an entry of another validator only; 6: of the same validator in another denom only
 	}
 	st := Build(ps, Opts{})
 	pendingUnbondings(st, pk) // existing buckets of the same delegator, possibly at the same completion time
